@@ -1,15 +1,16 @@
 #!/bin/bash
 # usage: tools/run_seeded.sh <seeded-id> [check ids...]   — applies seeded/<id>/patch.diff in a scratch worktree and runs the checks
+ROOT=${VERIF_ROOT:-$(cd "$(dirname "$0")/.." && pwd)}   # the checkout this script lives in (a worktree of /verif works too)
 id=$1; shift
-prop=$(python3 -c "import json;print(json.load(open('/verif/seeded/$id/meta.json'))['property'])")
+prop=$(python3 -c "import json;print(json.load(open('$ROOT/seeded/$id/meta.json'))['property'])")
 checks=${@:-$prop}
 wt=/tmp/sw_$$
 git -C /repo worktree add -q --detach $wt HEAD || exit 9
-if ! git -C $wt apply /verif/seeded/$id/patch.diff 2>/tmp/apply_err_$$; then echo "$id: PATCH-DOES-NOT-APPLY $(head -1 /tmp/apply_err_$$)"; git -C /repo worktree remove --force $wt; exit 3; fi
+if ! git -C $wt apply $ROOT/seeded/$id/patch.diff 2>/tmp/apply_err_$$; then echo "$id: PATCH-DOES-NOT-APPLY $(head -1 /tmp/apply_err_$$)"; git -C /repo worktree remove --force $wt; exit 3; fi
 for c in $checks; do
-  out=$(cd /verif && VERIF_REPO=$wt ./check $c --tier quick 2>&1 | grep -v "^KNOWN" | tail -2 | tr '\n' ' ' | cut -c1-260)
+  out=$(cd $ROOT && VERIF_REPO=$wt ./check $c --tier quick 2>&1 | grep -v "^KNOWN" | tail -2 | tr '\n' ' ' | cut -c1-260)
   echo "$id vs $c: $out"
 done
 git -C /repo worktree remove --force $wt
 # the run above regenerated lean/WfModel/Gen*.lean from the patched tree: regenerate from /repo again
-(cd /verif && /venv/bin/python -m harness.translate >/dev/null 2>&1)
+(cd $ROOT && /venv/bin/python -m harness.translate >/dev/null 2>&1)
